@@ -95,6 +95,12 @@ claims.update({
    'Not decided: minimal disruption and history independence as quantitative statements (follow from these invariants plus hash-function properties); collision buckets keep insertion order.',
    'DESIGN.md 3.C15'),
 })
+claims.update({
+ 'C16': ('other', 'two-generation discipline of SafeMap on all paths, LRU coherence rules, Cache API path rules and lock guards, decision table + algebraic normal forms of the rolling window',
+   'SafeMap.Set writes one generation only after removing the key from the other; Get/Range/Size consult both; Del removes from the holding generation; migrations copy every entry before the source is replaced; keyLru.add moves a known key to the front / pushes a new one and evicts the back when the list outgrew the limit; removeElement unlinks, forgets, calls onEvict; Cache.Del removes data, LRU entry and timer; SetWithExpire stores, refreshes the LRU position unconditionally and sets/moves the timer by prior presence; Take fetches only inside the single flight after a second miss, caches only success; RollingWindow span table (9 orderings), offset advance (offset+span)%size, lastTime re-aligned to the last interval boundary <= now, Reduce range; all under their locks.',
+   'Not decided: equivalence to sequential reference models over operation sequences; Queue/Ring index arithmetic; expiry timing.',
+   'DESIGN.md 3.C16'),
+})
 not_built_reason = 'static rules designed (DESIGN.md section 3) but not built yet in this revision'
 
 checks, na = [], []
